@@ -1003,7 +1003,7 @@ struct SendOk {
 
 type Fail = (&'static str, String);
 
-fn run_send(form: &FormSpec, write_max: Option<usize>, prev_boundary: &str) -> Result<SendOk, Fail> {
+fn run_send(form: &FormSpec, write_max: Option<usize>, prev_boundary: &str, break_first: Option<usize>) -> Result<SendOk, Fail> {
     let datas: Vec<Vec<u8>> = form.parts.iter().map(|p| realize(&p.data, prev_boundary)).collect();
     let want: Vec<Part> = form
         .parts
@@ -1053,7 +1053,7 @@ fn run_send(form: &FormSpec, write_max: Option<usize>, prev_boundary: &str) -> R
     // prepare and send
     let mut script = Script::plain(RESPONSE.to_vec());
     script.write_max = write_max;
-    let world = World::single(script, false);
+    let mut world = World::single(script.clone(), false);
     let preset = form.preset_content_type;
     let prepared = match guarded(|| match preset {
         1 => attohttpc::post(URL).header("Content-Type", "application/json").body(multipart).try_prepare(),
@@ -1069,6 +1069,20 @@ fn run_send(form: &FormSpec, write_max: Option<usize>, prev_boundary: &str) -> R
         Ok(Ok(p)) => p,
     };
     let mut prepared = prepared;
+    if let Some(k) = break_first {
+        // a first transmission that breaks off after k bytes (the peer goes away); what is judged is
+        // the transmission that follows it
+        drop(world);
+        {
+            let mut s = Script::plain(RESPONSE.to_vec());
+            s.write_fail_at = Some(k);
+            let _w = World::single(s, false);
+            if let Err(p) = guarded(|| prepared.send().map(|_| ())) {
+                return Err(("C15:panic", format!("the broken first transmission panicked: {p}")));
+            }
+        }
+        world = World::single(script, false);
+    }
     match guarded(|| prepared.send()) {
         Err(p) => return Err(("C15:panic", format!("send panicked: {p}"))),
         Ok(Err(e)) => return Err(("C15:send-failed", format!("send failed: {e}"))),
@@ -1190,7 +1204,7 @@ fn check_form(form: &FormSpec) -> CaseResult {
     let mut prev = FIXED_DECOY.to_string();
     for wm in WRITE_POLICIES {
         res.sends += 1;
-        match run_send(form, wm, &prev) {
+        match run_send(form, wm, &prev, None) {
             Ok(ok) => {
                 prev = ok.boundary.clone();
                 res.oks.push(ok);
@@ -1198,6 +1212,20 @@ fn check_form(form: &FormSpec) -> CaseResult {
             Err((sig, what)) => {
                 res.fails
                     .push((sig.to_string(), format!("{}; {}: {what}", form_summary(form), policy_name(wm)), wm.or(Some(0))));
+            }
+        }
+    }
+    // forms with a part larger than the writer's buffers: sent again after a transmission that broke off
+    let total: usize = form.parts.iter().map(|p| realize(&p.data, FIXED_DECOY).len()).sum();
+    if total >= 8192 {
+        for k in [300usize, 8192 + 300, total / 2 + 300] {
+            res.sends += 1;
+            if let Err((sig, what)) = run_send(form, None, &prev, Some(k)) {
+                res.fails.push((
+                    sig.to_string(),
+                    format!("{}; sent again after a first transmission that broke off after {k} bytes: {what}", form_summary(form)),
+                    Some(0),
+                ));
             }
         }
     }
